@@ -564,11 +564,11 @@ impl AnnounceStorage {
         && (forall|k: Key| #[trigger] e_has(self.expires@, k) <==> st_has(self.storage@, k))
     }
 
-//@begin fn src/storage.rs impl:AnnounceStorage remove_expired_items props=C07
+//@begin fn src/storage.rs impl:AnnounceStorage remove_expired_items props=C07,C01
     pub fn remove_expired_items(&mut self, curr_time: Instant)
         requires old(self).wf(), inst_nanos(curr_time) <= clock(),
         ensures final(self).wf(),
-            final(self).expires@ == old(self).expires@.filter(live_at(inst_nanos(curr_time))), // @C07.expiry_exactly_24h
+            final(self).expires@ == old(self).expires@.filter(live_at(inst_nanos(curr_time))), // @C07.expiry_exactly_24h @C01.expiry_exactly_24h
     {
         broadcast use vstd::std_specs::hash::group_hash_axioms, infohash_key_model;
         let ghost now = inst_nanos(curr_time);
@@ -704,7 +704,7 @@ impl AnnounceStorage {
     }
 //@end
 
-//@begin fn src/storage.rs impl:AnnounceStorage insert_contact props=C07,C05
+//@begin fn src/storage.rs impl:AnnounceStorage insert_contact props=C07,C05,C01
     pub fn insert_contact(&mut self, item: AnnounceItem) -> (r: Option<bool>)
         requires old(self).wf(), item.expiration.info_hash == ikey(item).0,
         ensures final(self).expires@ == old(self).expires@, st_ok(final(self).storage@),
@@ -793,14 +793,14 @@ impl AnnounceStorage {
     }
 //@end
 
-//@begin fn src/storage.rs impl:AnnounceStorage add props=C07,C05
+//@begin fn src/storage.rs impl:AnnounceStorage add props=C07,C05,C01
     pub fn add(&mut self, info_hash: InfoHash, address: SocketAddr, curr_time: Instant) -> (r: bool)
         requires old(self).wf(), inst_nanos(curr_time) <= clock(),
         ensures final(self).wf(), // @C07.store_invariant
-            r == (e_has(E0(*old(self), inst_nanos(curr_time)), (info_hash, address)) || E0(*old(self), inst_nanos(curr_time)).len() < 500), // @C07.accepted_iff_already_stored_or_room @C05.announce_refused_only_when_the_store_is_full
+            r == (e_has(E0(*old(self), inst_nanos(curr_time)), (info_hash, address)) || E0(*old(self), inst_nanos(curr_time)).len() < 500), // @C07.accepted_iff_already_stored_or_room @C05.announce_refused_only_when_the_store_is_full @C01.accepted_iff_already_stored_or_room
             !r ==> final(self).expires@ == E0(*old(self), inst_nanos(curr_time)), // @C07.refusal_evicts_nothing
             r ==> final(self).expires@.len() > 0 && ekey(final(self).expires@.last()) == (info_hash, address) && inst_nanos(final(self).expires@.last().inserted) == clock()
-                    && final(self).expires@.drop_last() == E0(*old(self), inst_nanos(curr_time)).filter(not_key((info_hash, address))), // @C07.renewal_restarts_24h_without_duplicate
+                    && final(self).expires@.drop_last() == E0(*old(self), inst_nanos(curr_time)).filter(not_key((info_hash, address))), // @C07.renewal_restarts_24h_without_duplicate @C01.renewal_restarts_24h_without_duplicate
     {
         // Clear out any old contacts that we have stored
         self.remove_expired_items(curr_time);
@@ -865,7 +865,7 @@ impl AnnounceStorage {
     }
 //@end
 
-//@begin fn src/storage.rs impl:AnnounceStorage new props=C07
+//@begin fn src/storage.rs impl:AnnounceStorage new props=C07,C01
     pub fn new() -> (r: AnnounceStorage)
         ensures r.wf(), r.expires@.len() == 0
     {
@@ -884,27 +884,27 @@ impl AnnounceStorage {
 //@end
 
     /// Returns true if the item was added/it's existing expiration updated, false otherwise.
-//@begin fn src/storage.rs impl:AnnounceStorage add_item props=C07,C05
+//@begin fn src/storage.rs impl:AnnounceStorage add_item props=C07,C05,C01
     pub fn add_item(&mut self, info_hash: InfoHash, address: SocketAddr) -> (r: bool)
         requires old(self).wf()
         ensures final(self).wf(), // @C07.store_invariant
-            r == (e_has(E0(*old(self), clock()), (info_hash, address)) || E0(*old(self), clock()).len() < 500), // @C07.accepted_iff_already_stored_or_room
+            r == (e_has(E0(*old(self), clock()), (info_hash, address)) || E0(*old(self), clock()).len() < 500), // @C07.accepted_iff_already_stored_or_room @C01.accepted_iff_already_stored_or_room
             !r ==> final(self).expires@ == E0(*old(self), clock()), // @C07.refusal_evicts_nothing
             r ==> final(self).expires@.len() > 0 && ekey(final(self).expires@.last()) == (info_hash, address) && inst_nanos(final(self).expires@.last().inserted) == clock()
-                    && final(self).expires@.drop_last() == E0(*old(self), clock()).filter(not_key((info_hash, address))), // @C07.renewal_restarts_24h_without_duplicate
+                    && final(self).expires@.drop_last() == E0(*old(self), clock()).filter(not_key((info_hash, address))), // @C07.renewal_restarts_24h_without_duplicate @C01.renewal_restarts_24h_without_duplicate
     {
         self.add(info_hash, address, Instant::now())
     }
 //@end
 
-//@begin fn src/storage.rs impl:AnnounceStorage find_items props=C07
+//@begin fn src/storage.rs impl:AnnounceStorage find_items props=C07,C01
     pub fn find_items<'a>(
         &'a mut self,
         info_hash: &'_ InfoHash,
     ) -> (r: Vec<SocketAddr>)
         requires old(self).wf()
-        ensures final(self).wf(), final(self).expires@ == old(self).expires@.filter(live_at(clock())), // @C07.expiry_exactly_24h
-            forall|a: SocketAddr| #[trigger] r@.contains(a) <==> e_has(final(self).expires@, (*info_hash, a)), // @C07.answers_exactly_the_live_pairs
+        ensures final(self).wf(), final(self).expires@ == old(self).expires@.filter(live_at(clock())), // @C07.expiry_exactly_24h @C01.expiry_exactly_24h
+            forall|a: SocketAddr| #[trigger] r@.contains(a) <==> e_has(final(self).expires@, (*info_hash, a)), // @C07.answers_exactly_the_live_pairs @C01.answers_exactly_the_live_pairs
             forall|i: int, j: int| 0 <= i < j < r@.len() ==> #[trigger] r@[i] != #[trigger] r@[j], // @C07.answers_distinct
             r@ == items_of(*final(self), *info_hash),
     {
@@ -912,15 +912,15 @@ impl AnnounceStorage {
     }
 //@end
 
-//@begin fn src/storage.rs impl:AnnounceStorage find props=C07
+//@begin fn src/storage.rs impl:AnnounceStorage find props=C07,C01
     pub fn find<'a>(
         &'a mut self,
         info_hash: &'_ InfoHash,
         curr_time: Instant,
     ) -> (r: Vec<SocketAddr>)
         requires old(self).wf(), inst_nanos(curr_time) <= clock(),
-        ensures final(self).wf(), final(self).expires@ == old(self).expires@.filter(live_at(inst_nanos(curr_time))), // @C07.expiry_exactly_24h
-            forall|a: SocketAddr| #[trigger] r@.contains(a) <==> e_has(final(self).expires@, (*info_hash, a)), // @C07.answers_exactly_the_live_pairs
+        ensures final(self).wf(), final(self).expires@ == old(self).expires@.filter(live_at(inst_nanos(curr_time))), // @C07.expiry_exactly_24h @C01.expiry_exactly_24h
+            forall|a: SocketAddr| #[trigger] r@.contains(a) <==> e_has(final(self).expires@, (*info_hash, a)), // @C07.answers_exactly_the_live_pairs @C01.answers_exactly_the_live_pairs
             forall|i: int, j: int| 0 <= i < j < r@.len() ==> #[trigger] r@[i] != #[trigger] r@[j], // @C07.answers_distinct
             r@ == items_of(*final(self), *info_hash),
     {
@@ -976,6 +976,6 @@ pub proof fn lemma_expiry_frees_capacity(s: AnnounceStorage, now: int)
 /// a pair is returned exactly while it is younger than 24 h (boundary: at exactly 24 h it is gone)
 //@props C07
 pub proof fn lemma_24h_boundary(e: ItemExpiration, now: int)
-    ensures live_at(now)(e) <==> now - inst_nanos(e.inserted) < 86_400_000_000_000 // @C07.expiry_exactly_24h
+    ensures live_at(now)(e) <==> now - inst_nanos(e.inserted) < 86_400_000_000_000 // @C07.expiry_exactly_24h @C01.expiry_exactly_24h
 {}
 
